@@ -3,7 +3,7 @@
    by [exact lemma] / vm_compute on translated tables, non-vacuity Examples, and
    [Print Assumptions]. *)
 From RJ Require Import Base.Outcome Model.DepthSem Proofs.DepthSem_proofs.
-From RJ Require Import Model.TraceLen Proofs.TraceLen_proofs Gen.TraceWords Gen.EvalCallGraph.
+From RJ Require Import Model.TraceLen Proofs.TraceLen_proofs Gen.TraceWords Gen.EvalCallGraph Gen.TailPos.
 From Coq Require Import Relations.
 From RJ Require Model.RefCore Model.RefValue Model.RefEval Proofs.RefSem_proofs.
 Local Open Scope N_scope.
@@ -42,6 +42,12 @@ Proof.
   assert (H : graph_topo eval_callgraph = true) by (vm_compute; reflexivity).
   split; [exact H | exact (graph_topo_acyclic eval_callgraph H)].
 Qed.
+
+(* the analyzer lets a `tailstrict` call run without a Call frame only in the
+   tail positions of the specification (function body; then / else of `if`;
+   body of `local`; body of `assert`): in particular not in an `if` condition *)
+Theorem C10_tail_positions_spec : tail_sites_ok tail_sites = true.
+Proof. vm_compute. reflexivity. Qed.
 
 (* ---- the accounting invariant (for every script of balanced handler words) ---- *)
 
@@ -166,6 +172,7 @@ Print Assumptions C10_handler_words_balanced.
 Print Assumptions C10_handler_words_balanced_sound.
 Print Assumptions C10_handler_gain_bounded.
 Print Assumptions C10_eval_callgraph_acyclic.
+Print Assumptions C10_tail_positions_spec.
 Print Assumptions C10_tracelen_invariant.
 Print Assumptions C10_dec_no_underflow.
 Print Assumptions C10_len_zero_at_end.
